@@ -127,6 +127,7 @@ func cmdFunc(args []string) int {
 	if *dump {
 		os.Setenv("GOVC_KEEP", "1")
 	}
+	loadKnownOpen(*prop)
 	bad := 0
 	for _, name := range fs.Args() {
 		t0 := time.Now()
